@@ -45,6 +45,13 @@ class EmitHooks(LibHooks):
     pass
 
 
+def _pstate_value(st, pstate):
+    """separator state: ('exact', v) -> exactly v; 0..5 -> that constant; 6 -> any other value"""
+    if isinstance(pstate, tuple):
+        return Int(8, Aff(pstate[1]))
+    return Int(8, Aff(pstate)) if pstate <= 5 else st.fresh_int('c14:PSTATE_OTHER', 8, 6, 255)
+
+
 def entry_state(C, ctxkind, next_state, pstate, in_array, cbname, bool_byte=None):
     """abstract state in which a token callback is invoked"""
     lay = C.lay
@@ -103,7 +110,7 @@ def entry_state(C, ctxkind, next_state, pstate, in_array, cbname, bool_byte=None
         st.add_region(Region('CTX', 'obj', Aff(1)))
         st.mem['CTX'] = {}
         st.owned.add('CTX')
-        pv = Int(8, Aff(pstate)) if pstate <= 5 else st.fresh_int('c14:PSTATE_OTHER', 8, 6, 255)
+        pv = _pstate_value(st, pstate)
         C.setcell(st, 'CTX', 0, 1, pv)
     else:
         f = {n: (o, s) for (n, o, s) in C.mod.di_struct_fields('_to_string_ctx')}
@@ -116,7 +123,7 @@ def entry_state(C, ctxkind, next_state, pstate, in_array, cbname, bool_byte=None
         C.setcell(st, 'CTX', f['buffer'][0], f['buffer'][1], Ptr('TEXT', Aff(0)))
         C.setcell(st, 'CTX', f['buffer_size'][0], f['buffer_size'][1], Int(lay.szw, Aff.sym(cap)))
         C.setcell(st, 'CTX', f['buffer_used'][0], f['buffer_used'][1], st.fresh_int('c14:TEXT_USED', lay.szw))
-        pv = Int(8, Aff(pstate)) if pstate <= 5 else st.fresh_int('c14:PSTATE_OTHER', 8, 6, 255)
+        pv = _pstate_value(st, pstate)
         C.setcell(st, 'CTX', f['pstate'][0], f['pstate'][1], pv)
         C.setcell(st, 'CTX', f['nice'][0], f['nice'][1], st.fresh_int('c14:NICE', 8, 0, 1))
         C.setcell(st, 'CTX', f['buffer_full'][0], f['buffer_full'][1], st.fresh_int('c14:FULL', 8, 0, 1))
@@ -168,22 +175,40 @@ def run(rep, tier):
             rep.ob(len(calls) == 1 and len(stores_cb) == 1, '%s:DRIVER' % drv,
                    'C14 %s does not drive %s through exactly one binson_parser_verify call' % (drv, cb), '',
                    sample={'driver': drv, 'callback': cb, 'verify_calls': len(calls)})
+        # the separator-state alphabet: every 8-bit constant the two callbacks and their drivers store or compare with
+        # (whatever the encoding is), plus one value outside it standing for "any other"
+        alpha = set()
+        for fname_ in ('_binson_print_cb', '_binson_to_string_cb', 'binson_parser_print', 'binson_parser_to_string'):
+            f_ = mod.functions.get(fname_)
+            for ins in (f_.instructions() if f_ is not None else ()):
+                if ins.op in ('icmp', 'store'):
+                    for (t_, v_) in ins.ops[:2]:
+                        if t_ == ('int', 8) and isinstance(v_, tuple) and v_[0] == 'int':
+                            alpha.add(v_[1] & 0xff)
+                    if ins.op == 'icmp':
+                        for (t_, v_) in ins.ops[:2]:
+                            if t_ == ('int', 32) and isinstance(v_, tuple) and v_[0] == 'int' and 0 <= v_[1] <= 255:
+                                alpha.add(v_[1])     # i8 compared after promotion to int
+        need(len(alpha) >= 4, 'C14: only %d separator-state constants found' % len(alpha))
+        other = min(x for x in range(256) if x not in alpha)
+        pstates = [('exact', v) for v in sorted(alpha)] + [('exact', other)]
+        rep.coverage['separator_states'] = sorted(alpha)
         ncombo = 0
         for k in kinds:
-            for ps in PSTATES:
+            for ps in pstates:
                 for in_array in (False, True):
                     ncombo += 1
                     a, ua = traces(C, pfn, 'print', k, ps, in_array)
                     b, ub = traces(C, tfn, 'to_string', k, ps, in_array)
-                    combo = 'token kind 0x%04x, separator state %s, %s' % (k, ps if ps <= 5 else 'other', 'inside an array' if in_array else 'not inside an array')
+                    combo = 'token kind 0x%04x, separator state %s, %s' % (k, ('0x%02x' % ps[1]) if ps[1] != other else 'other', 'inside an array' if in_array else 'not inside an array')
                     ok = (a == b)
                     detail = ''
                     if not ok:
                         detail = 'print only:\n  %s\nto_string only:\n  %s' % ('\n  '.join(map(str, sorted(a - b))), '\n  '.join(map(str, sorted(b - a))))
-                    rep.ob(ok, 'callbacks:EMIT:0x%04x:%s:%s' % (k, ps, int(in_array)),
+                    rep.ob(ok, 'callbacks:EMIT:0x%04x:%s:%s' % (k, ps[1], int(in_array)),
                            'C14 binson_parser_print and binson_parser_to_string render differently for %s' % combo, detail,
                            sample={'combination': combo, 'emit_traces': [list(map(list, t[0])) for t in sorted(a)][:2], 'next_separator_state': sorted({t[1] for t in a})})
-        need(ncombo >= 150, 'C14: only %d combinations evaluated' % ncombo)
+        need(ncombo >= 100, 'C14: only %d combinations evaluated' % ncombo)
         rep.coverage['combinations'] = ncombo
         # ---- RENDER: separator structure of the text for bounded documents (extracted machines composed)
         from props import c14m
